@@ -369,6 +369,16 @@ func includeGraphs(c *fw.Ctx, sampled int, emit emitFn) {
 		files[fmt.Sprintf("f%d.jst", n)] = []byte("# leaf\n")
 		emit("include-fanout", &proto.Job{ID: fmt.Sprintf("ifan-%d-%d", n, k), Root: "root.jst", Files: files})
 	}
+	// plain chains: every file includes the next one, around the limit of 1000 nested files and far beyond (every directive
+	// keeps the trace of its file, copied per file: memory quadratic in the depth)
+	for _, n := range []int{100, 999, 1000, 1001, 5000, 30000} {
+		files := map[string][]byte{"root.jst": []byte("JSIGHT 0.3\nINCLUDE c0.jst\n")}
+		for i := 0; i < n; i++ {
+			files[fmt.Sprintf("c%d.jst", i)] = []byte(fmt.Sprintf("TYPE @c%d any\nINCLUDE c%d.jst\n", i, i+1))
+		}
+		files[fmt.Sprintf("c%d.jst", n)] = []byte("TYPE @last any\n")
+		emit("include-chain", &proto.Job{ID: fmt.Sprintf("ichain-%d", n), Root: "root.jst", Files: files})
+	}
 	targets := []string{"missing.jst", "d", "d/", "\"\"", "/etc/passwd", "..", ".", "../x.jst", "./b.jst", "a\\b.jst", "b.jst extra",
 		"b.jst // note", "b.jst\n{}", "b.jst (", "\"b.jst\"", "\"b.jst", "", "b.jst b.jst", "sub/c.jst", "sub", "~", "%2e%2e/x",
 		"b.jst\n(\n)", "b.jst #c", "d/../b.jst", "b.jst/", "\x00", "\xff.jst", strings.Repeat("a", 300), strings.Repeat("d/", 200) + "x"}
